@@ -131,7 +131,7 @@ def gen_obs(rng, kind, frm, to, name):
         o["dtstart"] = list(r)[0]
         rule = f"FREQ=YEARLY;BYMONTH={mo};BYDAY={n}{DAYS[wd]}"
         if mode == "rrule_until":
-            uy = y + rng.randrange(0, 12)
+            uy = y + rng.randrange(1, 12)      # UNTIL before DTSTART is not a well-formed rule (RFC 5545 3.3.10): never generated
             rule += f";UNTIL={uy}{rng.randrange(1, 13):02}{rng.randrange(1, 29):02}T{rng.randrange(24):02}0000Z"
         elif mode == "rrule_count":
             rule += f";COUNT={rng.randrange(1, 9)}"
